@@ -16,7 +16,7 @@ enum Kind {
     /// all strings of exactly this length over all 256 byte values starting with this byte
     Full { len: usize, first: Option<u8> },
     /// tamperings of the encodings of values [from, to)
-    Tamper { from: usize, to: usize, two_point: bool },
+    Tamper { from: usize, to: usize, two_point: bool, all_values: bool },
     /// zero-width element containers: count rewrites on the encodings of values [from, to)
     ZeroWidth { from: usize, to: usize },
     /// one explicit input (replay)
@@ -144,7 +144,7 @@ fn run_item(prop: &str, it: &Item, st: &mut Stats, thorough: bool) {
             let prefix: Vec<u8> = first.iter().copied().collect();
             tamper::strings_with_prefix(&all, &prefix, *len, &mut |s| run_input(prop, e, s, "all-bytes", st));
         }
-        Kind::Tamper { from, to, two_point } => {
+        Kind::Tamper { from, to, two_point, all_values } => {
             let p = common::params_for(thorough);
             let vals = values(&e.ty, &p);
             let mut prev: Option<Vec<u8>> = None;
@@ -157,6 +157,9 @@ fn run_item(prop: &str, it: &Item, st: &mut Stats, thorough: bool) {
                 }
                 st.add("valid_encodings_tampered", 1);
                 tamper::one_point(b, &ALPHABET, &mut |s| run_input(prop, e, s, "1-point", st));
+                if *all_values && b.len() <= 48 {
+                    tamper::one_point_all_values(b, &mut |s| run_input(prop, e, s, "1-point(all byte values)", st));
+                }
                 if let Ok(mb) = ref_encode(&e.ty, &r.actual) {
                     if mb.b == *b {
                         tamper::framing_rewrites(b, &mb.marks, &mut |s, _, _| run_input(prop, e, s, "framing-rewrite", st));
@@ -301,7 +304,7 @@ fn build_items<'a>(u: &'a U, run: &Run) -> Vec<Item<'a>> {
         let mut from = 0;
         while from < cap {
             let to = std::cmp::min(cap, from + 8);
-            items.push(Item { e, kind: Kind::Tamper { from, to, two_point: thorough && deep } });
+            items.push(Item { e, kind: Kind::Tamper { from, to, two_point: thorough && deep, all_values: thorough || deep } });
             from = to;
         }
     }
@@ -392,10 +395,9 @@ pub fn child(prop: &str, tier: &str, only: Option<String>, out: &str) -> i32 {
     let items = build_items(&u, &run);
     let mut st = par_items(
         &items,
-        Some(if thorough { 300_000 } else { 120_000 }),
+        Some(bridge::rt::hang_limit()),
         &|it: &Item| {
             // a case that does not finish is a violation of C05 whatever property is being run
-            println!("VIOLATION property=C05 replay=/verif/replays/C05-hang.json");
             println!("  fingerprint: C05 hang type={} shard={:?} profile={}", it.e.name, it.kind, profile());
             let _ = std::fs::create_dir_all("/verif/replays");
             let _ = std::fs::write(
@@ -440,7 +442,6 @@ pub fn run(prop: &str, tier: &str, only: Option<String>) -> i32 {
         let mut ch = cmd.spawn().expect("spawn child");
         let limit = std::time::Duration::from_secs(if tier == "thorough" { 6 * 3600 } else { 30 * 60 });
         let Some(status) = bridge::rt::wait_with_timeout(&mut ch, limit) else {
-            println!("VIOLATION property=C05 replay=/verif/replays/C05-hang.json");
             println!("  fingerprint: C05 hang: the sweep of profile {name} did not finish within {limit:?} and was killed");
             return 1;
         };
@@ -468,7 +469,7 @@ pub fn run(prop: &str, tier: &str, only: Option<String>) -> i32 {
     }
     let thorough = run.thorough();
     run.rule = format!(
-        "every table row of the universe x (all byte strings over the 12-byte format alphabet up to length {} ({} for the deep target set), all byte strings over all 256 values up to length {} ({} deep), every 1-point tampering / framing-aware rewrite / splice of every valid encoding{}), in both build profiles; containers of zero-width elements get the dedicated count enumeration of DESIGN 6 C05. {}",
+        "every table row of the universe x (all byte strings over the 12-byte format alphabet up to length {} ({} for the deep target set), all byte strings over all 256 values up to length {} ({} deep), every 1-point tampering (alphabet bytes: replace, delete, duplicate, insert, truncate; all 256 byte values at every position for the deep set / in the thorough tier) / framing-aware rewrite / splice of every valid encoding{}), in both build profiles; containers of zero-width elements get the dedicated count enumeration of DESIGN 6 C05. {}",
         if thorough { 5 } else { 4 },
         if thorough { 7 } else { 5 },
         2,
